@@ -36,6 +36,7 @@ type Term struct {
 	Sort string
 	T    types.Type
 	Addr bool // S is the address (Int) of a by-value struct of type T living in memory
+	Space string // private component space of a non-escaping local allocation ("" = shared heap)
 }
 
 func LoadEngine(repo string, patterns []string, specDir string) (*Engine, error) {
